@@ -47,7 +47,7 @@ func checkRenamed(t hx.TB, test, x string, seed uint64) (stats map[string]int, j
 func TestRenamedThroughAPI(t *testing.T) {
 	const test = "RenamedThroughAPI"
 	hx.Rule(test, "generated modules (with debug info, blockaddress tables, use-list orders), parsed, printed, then a seeded random subset of parameters, blocks and instruction results renamed through SetName (to another name, to unnamed, from unnamed to a name) and printed again: opt-14 -passes=strip must read the first and the second print as the same module (LLVM's reading with local names removed); gate: LLVM accepts the first print. Non-trivial = at least one value went from named to unnamed or back (the numbering of the function changes)")
-	hx.Check(t, test, hx.N(150, 5000), func(rt *rapid.T) {
+	hx.Check(t, test, hx.N(150, 1500), func(rt *rapid.T) {
 		cfg := genCfg()
 		m, _ := gen.Module(rt, cfg)
 		x := m.Text()
